@@ -1,6 +1,7 @@
 import Casm.Proofs.IterModel
 import Casm.Proofs.AssembleLemmas
 import Casm.Proofs.StableId
+import Casm.Proofs.KindInv
 import Casm.Props.C01
 /-!
 # C02 — a successful result is a genuine fixed point, never a stale guess
@@ -26,9 +27,11 @@ implementation's own final state).
   `Casm.C01.instruction_emits_choice` / `label_is_address` / `chosen_are_smallest` this is the
   statement's "recomputing every instruction from the final symbol values selects one unique
   smallest encoding, which is what was emitted; every label is the address of what follows".
-  Hypothesis `NoClash nodes` (no constant node shares its symbol slot with a label node; every
-  declaration gets a fresh slot) is decidable (`refsWF`) and is evaluated by every certificate
-  run of the correspondence; with budget 1 the only pass is the first one and the statement is
+  No hypothesis is left: that no constant node shares its symbol slot with a label node
+  (`NoClash`, needed for well-formedness of pass outputs) is proved of every node list the front
+  end produces (`front_end_never_clashes`: a node's reference always points at a declaration of
+  the node's own kind; declarations are append-only and keep their kind; `#if` splicing adds only
+  reference-free nodes).  With budget 1 the only pass is the first one and the statement is
   `success_is_confirmed`.
 -/
 namespace Casm.C02
@@ -157,7 +160,7 @@ def FixedPoint (st : Static) (nodes : List AstNode) (d : Defs) : Prop :=
 theorem success_is_fixed_point (opts : Opts) (fs : SrcFiles) (roots : List (List Char)) (res : AsmOk)
     (hb : 2 ≤ opts.maxIter) (h : assemble opts fs roots = .ok res) :
     ∃ st nodes defs0 d, frontEnd opts fs roots = .ok (st, nodes, defs0) ∧
-      (NoClash nodes → FixedPoint st nodes d) ∧ ReadFrom st nodes d res := by
+      FixedPoint st nodes d ∧ ReadFrom st nodes d res := by
   unfold assemble at h
   cases hf : frontEnd opts fs roots with
   | error e => rw [hf] at h; cases h
@@ -176,7 +179,7 @@ theorem success_is_fixed_point (opts : Opts) (fs : SrcFiles) (roots : List (List
       | cons a t => simp at h
       | nil =>
         refine ⟨st, nodes, defs0, d, rfl, ?_, ?_⟩
-        · intro hwf
+        · have hwf : NoClash nodes := frontEnd_noClash opts fs roots st nodes defs0 hf
           unfold resolveIteratively at hr
           obtain ⟨r, pre, hfix, hrep⟩ := resolveIterativelyN_fixed_point st nodes st.opts.maxIter (by rw [hst]; exact hb) hwf defs0 iters d [] hr
           have : r = [] := by
@@ -319,7 +322,12 @@ theorem label_value_is_its_position (st : Static) (nodes : List AstNode) (d : De
           obtain ⟨a, ha, hval⟩ := Casm.C01.label_is_address st defs' defs' _ ref stable reported hin hdisp'
           exact ⟨ps, it, a, hpre, hv, ha, hval⟩
 
-/-- the hypothesis `NoClash` is decidable; the certificate of every correspondence run evaluates it -/
+/-- **the front end never lets a constant and a label share a symbol slot** -/
+theorem front_end_never_clashes (opts : Opts) (fs : SrcFiles) (roots : List (List Char)) (st : Static) (nodes : List AstNode) (defs : Defs)
+    (h : frontEnd opts fs roots = .ok (st, nodes, defs)) : NoClash nodes :=
+  frontEnd_noClash opts fs roots st nodes defs h
+
+/-- `NoClash` is also decidable; the certificate of every correspondence run evaluates it -/
 theorem noClash_of_refsWF (nodes : List AstNode) (h : refsWF nodes = true) : NoClash nodes := refsWF_noClash nodes h
 
 end Casm.C02
